@@ -10,7 +10,7 @@ from ..runner import Violation, drive
 RULE = ("All loadable stock dynamic cases (each a different combination of generator / exciter / governor / PSS / "
         "renewable / load / measurement models) and generated variants built from their rows: drawn dynamic devices "
         "switched offline, a static generator's machine split into two machines with drawn split factors (summing to 1 "
-        "= consistent, or not = deliberately inconsistent), drawn limits moved below the operating point (inconsistent). "
+        "= consistent, or not = deliberately inconsistent), drawn limits moved below the operating point (inconsistent), converter-interfaced plants (storage, distributed and renewable generation) re-dispatched incl. absorbing power (judged where their discrete components keep the status they have at the stock dispatch). "
         "Oracle: (1) verdict consistency for every case: TDS.init() reports test_ok iff the residuals recomputed through "
         "the routine's residual evaluation are below tol (no NaN), and a failure raises the exit code; (2) under the "
         "harness-evaluated preconditions (all references resolve, split factors sum to 1, no limiter flag other than "
@@ -45,7 +45,9 @@ def dyn_paths(quick):
 @st.composite
 def init_cases(draw, paths):
     return dict(path=draw(st.sampled_from(paths)),
-                variant=draw(st.sampled_from(['asis', 'asis', 'offline', 'offline_syn', 'split_ok', 'split_bad', 'limit_below', 'degenerate', 'degenerate'])),
+                variant=draw(st.sampled_from(['asis', 'asis', 'offline', 'offline_syn', 'split_ok', 'split_bad', 'limit_below', 'degenerate', 'degenerate',
+                                              'dispatch'])),
+                factor=draw(st.sampled_from([-1.0, -0.5, 0.4, 0.7])),
                 sel=draw(st.integers(0, 50)), gamma=draw(st.sampled_from([0.3, 0.5, 0.75])),
                 bad_sum=draw(st.sampled_from([0.8, 1.2])),
                 # voltage dependence of the static loads during the simulation (constant power / current / impedance weights)
@@ -123,6 +125,26 @@ def build_variant(c):
                 break
         else:
             return None, info
+    elif v == 'dispatch':
+        # the same plant at another dispatch: the power-flow active power of a static generator that is replaced by a
+        # converter-interfaced device (storage, distributed or renewable generation) is scaled, negative = absorbing
+        # (a storage device charging). Consistent data: whether the point lies inside all limiter ranges is evaluated by
+        # the harness after initialisation, like for every other case.
+        conv = []
+        for mm in rows:
+            if ss0.models[mm].group in ('DG', 'RenGen'):
+                conv.extend((mm, r) for r in rows[mm] if r.get('u', 1) and r.get('gen') is not None)
+        if not conv:
+            return None, info
+        mm, r = conv[c['sel'] % len(conv)]
+        hit = False
+        for g in rows.get('PV', []):
+            if g['idx'] == r['gen']:
+                g['p0'] = float(g['p0']) * c.get('factor', -0.5)
+                hit = True
+        if not hit:
+            return None, info
+        info['note'] = 'dispatch of the static generator of %s[%s] scaled by %g' % (mm, r['idx'], c.get('factor', -0.5))
     elif v == 'degenerate':
         # inconsistent data that make some initial value undefined (division by a zero gain / coinciding breakpoints):
         # a drawn numerical datum of a drawn dynamic device is set to zero or to its neighbour after set-up
@@ -161,6 +183,44 @@ def build_variant(c):
             mdl.num_params[pname].v[c['sel'] % mdl.n] = val
         info['note'] = 'degenerate ' + ', '.join('%s.%s=%g' % (m, pn, v_) for m, pn, v_ in specs)
     return ss, info
+
+
+_ASIS = {}
+
+
+def asis_reference(path):
+    """Initialisation verdict and the list of limiter flags at a bound for the stock case as it is (cached per process)."""
+    if path not in _ASIS:
+        try:
+            ss, _ = build_variant(dict(path=path, variant='asis', sel=0, gamma=0.5, bad_sum=1.2))
+            ok = ss is not None and ss.is_setup and ss.PFlow.run()
+            if ok:
+                ss.TDS.init()
+            _ASIS[path] = dict(test_ok=bool(ss.TDS.test_ok), at_limit=sorted(flags_at_bound(ss)[1])) if ok else None
+        except Exception:
+            _ASIS[path] = None
+    return _ASIS[path]
+
+
+def flags_at_bound(ss):
+    flags_inside = True
+    at_limit = []
+    for mname, mdl in ss.exist.tds.items():
+        if mdl.n == 0:
+            continue
+        # the operating point of a device that is out of service is not an operating point: only in-service devices count
+        online = np.asarray(mdl.u.v, dtype=float) != 0 if hasattr(mdl, 'u') else np.ones(mdl.n, dtype=bool)
+        if 'ue' in mdl.__dict__ and hasattr(mdl.ue, 'v') and np.size(mdl.ue.v) == mdl.n:
+            online = online & (np.asarray(mdl.ue.v, dtype=float) != 0)
+        for dname, d in mdl.discrete.items():
+            for fl in ('zl', 'zu'):
+                if fl in d.export_flags:
+                    fv = np.asarray(getattr(d, fl))
+                    hit = np.any(fv[online] != 0) if fv.shape == online.shape else np.any(fv != 0)
+                    if hit:
+                        flags_inside = False
+                        at_limit.append('%s.%s_%s' % (mname, dname, fl))
+    return flags_inside, at_limit
 
 
 def init_case(ctx, c):
@@ -233,23 +293,7 @@ def init_case(ctx, c):
     if (not test_ok) and ss.exit_code <= code0:
         ctx.fail('failed_initialisation_without_error_code', dict(case=brief, exit_code=ss.exit_code), sig=dict())
     # ---- (2) preconditions => success ---------------------------------------------------------------------------------
-    flags_inside = True
-    at_limit = []
-    for mname, mdl in ss.exist.tds.items():
-        if mdl.n == 0:
-            continue
-        # the operating point of a device that is out of service is not an operating point: only in-service devices count
-        online = np.asarray(mdl.u.v, dtype=float) != 0 if hasattr(mdl, 'u') else np.ones(mdl.n, dtype=bool)
-        if 'ue' in mdl.__dict__ and hasattr(mdl.ue, 'v') and np.size(mdl.ue.v) == mdl.n:
-            online = online & (np.asarray(mdl.ue.v, dtype=float) != 0)
-        for dname, d in mdl.discrete.items():
-            for fl in ('zl', 'zu'):
-                if fl in d.export_flags:
-                    fv = np.asarray(getattr(d, fl))
-                    hit = np.any(fv[online] != 0) if fv.shape == online.shape else np.any(fv != 0)
-                    if hit:
-                        flags_inside = False
-                        at_limit.append('%s.%s_%s' % (mname, dname, fl))
+    flags_inside, at_limit = flags_at_bound(ss)
     gam_ok = True
     for name in ('GENROU', 'GENCLS', 'PLBVFU1'):
         pass
@@ -287,6 +331,14 @@ def init_case(ctx, c):
             except Exception:
                 pass
     pre = info['consistent'] and flags_inside and gam_ok and well_posed_network and checkers_ok
+    if c['variant'] == 'dispatch' and not flags_inside:
+        # many stock plants carry comparators / limiters that sit at a bound at their stock operating point and initialise
+        # all the same; a re-dispatched plant whose discrete components are in exactly the state they have at the stock
+        # dispatch (which initialises) is inside the same ranges
+        ref = asis_reference(c['path'])
+        if ref is not None and ref['test_ok'] and ref['at_limit'] == sorted(at_limit):
+            ctx.count('dispatch:same_limiter_status_as_stock_dispatch')
+            pre = info['consistent'] and gam_ok and well_posed_network and checkers_ok
     if c['variant'] == 'offline' and c.get('asis_ok') and info.get('offline_group') in OFFLINE_NEUTRAL and not test_ok and well_posed_network and gam_ok:
         i = int(np.nanargmax(np.abs(fg)))
         ctx.fail('offline_device_breaks_initialisation', dict(case=brief, residual=res, where=ss.dae.xy_name[i]),
@@ -388,6 +440,16 @@ def camp_init(ctx):
         ctx.evaluated()
         ctx.count('anchor:undefined_initial_value')
         init_case(ctx, c)
+    # anchors: every converter-interfaced stock plant once at a reversed / reduced dispatch (storage charging)
+    conv = [p for p in paths if any(t in p for t in ('esd1', 'pvd1', 'dgprct', 'solar', 'wt3', 'wtd', 'ev'))]
+    for k, p in enumerate(conv):
+        if k % ctx.nshards == ctx.shard:
+            for f in (-0.5, 0.4):
+                c = dict(path=p, variant='dispatch', factor=f, sel=(ctx.seed + k) % 4, gamma=0.5, bad_sum=1.2, zip_p=None, zip_q=None)
+                ctx.current_case = c
+                ctx.evaluated()
+                ctx.count('anchor:redispatched_converter_plant')
+                init_case(ctx, c)
     drive(ctx, init_cases(paths), body, 12 if quick else 120, name='init', chunk=6, shrink=False, budget_s=120 if quick else 1500)
 
 
